@@ -127,6 +127,24 @@ def check(run, prog, tier):
     reboot_before_entries(cx, "S3", "announcer")
     atomic_notifications(cx, "S3", "stopped/unsubscribed")
 
+    # ------------------------------------------------------------------ S7 start / stop of the stack reach every component
+    e7 = engine(prog, NoInline())
+    for mname, want in (("start", "start"), ("stop", "stop")):
+        fn = prog.lookup_method(PROTO, mname)
+        if fn is None:
+            raise AnalysisError(f"{PROTO}.{mname} has vanished")
+        run.analysed(fn)
+        ps = [p for p in e7.paths(fn, recv=PROTO) if p.returns()]
+        run.paths += len(ps)
+        for comp in ("subscriber", "announcer", "discovery"):
+            n_calls = [len([e for e in p.events if e.kind == "call" and e.recv == ("attr", ("self", PROTO), comp) and e.attrname == want and not e.sched])
+                       for p in ps]
+            ok7 = bool(ps) and all(n == 1 for n in n_calls)
+            run.ob("S7", f"{fn.qual}:{want}s-{comp}", ok7, loc(fn),
+                   f"{mname}() {want}s the {comp} part exactly once on every path" if ok7 else
+                   f"{mname}() calls {comp}.{want}() {sorted(set(n_calls))} time(s): a part that is never {want}ed "
+                   + ("sends nothing (no offers / finds / subscribes): the stacks cannot converge" if want == "start" else "keeps transmitting after the stack was stopped"))
+
     # ------------------------------------------------------------------ S6 nothing decodable is dropped on the way in
     # (the acceptance half of C03's filter table: every decodable SD notification reaches the reboot check and the
     # entry dispatch, whatever endpoint state the receive path consults)
